@@ -321,36 +321,8 @@ def r9_3(ctx):
 # ------------------------------------------------------------------------------------------ R9.4
 def r9_4(ctx):
     ctx.begin("R9.4", "everything a simulation step writes is reset by initialize(True, True) or re-assigned by simulate()", floor=15)
-    from .C08 import tree_method_run
-    f, outs = tree_method_run(ctx, "initialize", {"state_info": Const(True), "log_info": Const(True)})
-    reset = set()
-    for st, ex in outs:
-        for e in flatten(st.trace):
-            if isinstance(e, Store) and e.cls:
-                owner = ctx.types.field_owner(e.cls, e.attr) or e.cls
-                reset.add((owner, e.attr))
-    sim = ctx.repo.method(PROJECT, "simulate")
-    for e in ctx.eff.of(sim):
-        if e.kind == "store" and e.cls:
-            reset.add((ctx.types.field_owner(e.cls, e.attr) or e.cls, e.attr))
-    written = {}
-    funcs = list(sim_reach(ctx, precise=True))
-    step_code = {id(g.node) for g in funcs}
-    # a backward run and the log reversal belong to "running a simulation" too
-    for nm in ("backward_simulate", "reverse_log_information"):
-        g0 = ctx.repo.lookup_method(PROJECT, nm)
-        if g0 is not None:
-            funcs.extend(ctx.eff.reachable([g0], precise=True, stop=lambda fn: fn.name in ("simulate",)))
-    structure = {"input_task_list", "output_task_list", "input_workplace_list", "output_workplace_list", "task_list"}
-    for g in funcs:
-        for e in ctx.eff.of(g):
-            if e.attr in structure and id(g.node) not in step_code:
-                continue  # the backward wrapper (and its helpers): swapped and swapped back / helper tasks removed again: C17 R17.1-R17.3
-            if g.name == "__init__":
-                continue
-            if e.kind in ("store", "mut") and e.cls and not e.attr.startswith("dummy_"):
-                owner = ctx.types.field_owner(e.cls, e.attr) or e.cls
-                written.setdefault((owner, e.attr), e)
+    from ..guards import unreset_attrs
+    written, reset = unreset_attrs(ctx)   # (shared with the hidden-state rule R0.1 of every check)
     for k, e in sorted(written.items()):
         ctx.instance(f"{k[0]}.{k[1]}", sample={"written_at": e.loc, "reset": k in reset})
         if k not in reset:
